@@ -93,6 +93,7 @@ class Model:
         return (r[1], r[2]) if r[0] == 0 else None
     # ---- C05 computable premise, primitives, plot ----
     def branch_faithful(self, a, b): return bool(self.raw([42, W.e_shape(a), W.e_shape(b)]))
+    def diff_hyps(self, ja, jb, p): return bool(self.raw([48, W.e_jordan(ja), W.e_jordan(jb), W.e_point(p)]))
     def sound_hyps(self, ja, jb, closed, inside, p): return bool(self.raw([47, W.e_jordan(ja), W.e_jordan(jb), bool(closed), bool(inside), W.e_point(p)]))
     def prim(self, kind, arg, center):
         """kind 0 square / 1 triangle / 2 regular_polygon(4); arg = pyarg wire form"""
